@@ -5,7 +5,12 @@
 // real code become the fault classes "abort" / "sanitizer" instead of killing the harness.
 #pragma once
 #include <algorithm>
+#include <functional>
+#include <memory>
 #include <sstream>
+
+#include <sys/wait.h>
+#include <unistd.h>
 
 #include "common/circuit.hpp"
 #include "common/harness.hpp"
@@ -322,6 +327,147 @@ inline Run runCase(const Circuit &input, const Params &prm, int timeoutSec = 120
   }
   return r;
 }
+
+// ------------------------------------------------------------------ cases on several cores
+//
+// The expensive part of a case is run in forked children (vh::isolated) while the parent waits.
+// ParallelBlobs runs job(k), k in [0, n), in W forked worker processes (worker w takes the k with
+// k % W == w) and stores what each job returns (an opaque string) in one file per worker; the
+// parent then reads the results back in increasing k and does all the bookkeeping (streams,
+// oracle, counters) itself, in the same order as a sequential run: the output of the harness
+// does not depend on W.  Workers never touch the harness' output streams and leave through _exit.
+
+inline std::string serializeRun(const Run &r) {
+  auto oneLine = [](std::string s) {
+    for (char &ch : s)
+      if (ch == '\n' || ch == '\r') ch = '\x01';
+    return s;
+  };
+  std::ostringstream os;
+  os << "L " << r.legalizeStatus << "\n";
+  os << "S " << snapLine(r.legalized) << "\n";
+  os << "D " << r.detailedStatus << "\n";
+  os << "W " << oneLine(r.detailedWhat) << "\n";
+  os << "H " << (r.hasHook ? 1 : 0) << "\n";
+  os << "C " << r.callbacks.size() << "\n";
+  for (auto &s : r.callbacks) os << snapLine(s) << "\n";
+  os << "F " << snapLine(r.final) << "\n";
+  os << "O " << r.oplog.size() << "\n";
+  for (auto &l : r.oplog) os << l << "\n";
+  return os.str();
+}
+
+inline bool parseRun(const std::string &blob, Run &r) {
+  std::istringstream is(blob);
+  std::string line;
+  auto rest = [&](const char *tag) -> std::string {
+    if (!std::getline(is, line) || line.size() < 2 || line[0] != tag[0]) return std::string("\x02");
+    return line.substr(2);
+  };
+  r = Run();
+  std::string v;
+  if ((v = rest("L")) == "\x02") return false;
+  r.legalizeStatus = v;
+  if ((v = rest("S")) == "\x02") return false;
+  parseSnap(v, r.legalized);
+  if ((v = rest("D")) == "\x02") return false;
+  r.detailedStatus = v;
+  if ((v = rest("W")) == "\x02") return false;
+  for (char &ch : v)
+    if (ch == '\x01') ch = '\n';
+  r.detailedWhat = v;
+  if ((v = rest("H")) == "\x02") return false;
+  r.hasHook = v == "1";
+  if ((v = rest("C")) == "\x02") return false;
+  for (long long i = 0, n = atoll(v.c_str()); i < n; ++i) {
+    if (!std::getline(is, line)) return false;
+    Snap s;
+    parseSnap(line, s);
+    r.callbacks.push_back(s);
+  }
+  if ((v = rest("F")) == "\x02") return false;
+  parseSnap(v, r.final);
+  if ((v = rest("O")) == "\x02") return false;
+  for (long long i = 0, n = atoll(v.c_str()); i < n; ++i) {
+    if (!std::getline(is, line)) return false;
+    r.oplog.push_back(line);
+  }
+  return true;
+}
+
+struct ParallelBlobs {
+  std::string prefix;
+  int W = 1;
+  std::vector<std::unique_ptr<std::ifstream>> files;
+  std::vector<long long> nextK;  // next k stored in the file of worker w
+
+  static int defaultWorkers() {
+    long n = sysconf(_SC_NPROCESSORS_ONLN);
+    if (const char *e = getenv("VERIF_HARNESS_JOBS")) n = atol(e);
+    return (int)std::max(1L, std::min(n, 32L));
+  }
+
+  // `keep(k)`: cases that are run at all (the others are skipped by workers and must not be asked for)
+  ParallelBlobs(const std::string &pfx, long long n, int workers, const std::function<std::string(long long)> &job)
+      : prefix(pfx), W(std::max(1, workers)) {
+    if (n <= 0) { W = 0; return; }
+    if ((long long)W > n) W = (int)n;
+    fflush(nullptr);
+    std::vector<pid_t> pids;
+    for (int w = 0; w < W; ++w) {
+      pid_t pid = fork();
+      if (pid < 0) { perror("fork"); exit(3); }
+      if (pid == 0) {
+        FILE *f = fopen((prefix + std::to_string(w) + ".bin").c_str(), "wb");
+        if (!f) _exit(4);
+        for (long long k = w; k < n; k += W) {
+          std::string blob = job(k);
+          fprintf(f, "%lld %zu\n", k, blob.size());
+          fwrite(blob.data(), 1, blob.size(), f);
+          fputc('\n', f);
+          fflush(f);
+        }
+        fclose(f);
+        _exit(0);
+      }
+      pids.push_back(pid);
+    }
+    for (pid_t pid : pids) {
+      int st = 0;
+      waitpid(pid, &st, 0);
+    }
+    for (int w = 0; w < W; ++w) {
+      files.emplace_back(new std::ifstream(prefix + std::to_string(w) + ".bin", std::ios::binary));
+      nextK.push_back(w);
+    }
+  }
+
+  // result of job(k); k must be asked in increasing order (per worker).  false = the worker did not
+  // deliver it (it died): the caller recomputes in process.
+  bool get(long long k, std::string &blob) {
+    if (W <= 0) return false;
+    int w = (int)(k % W);
+    std::ifstream &f = *files[w];
+    std::string head;
+    while (f && std::getline(f, head)) {
+      long long kk = -1;
+      size_t len = 0;
+      if (sscanf(head.c_str(), "%lld %zu", &kk, &len) != 2) return false;
+      blob.assign(len, '\0');
+      f.read(&blob[0], (std::streamsize)len);
+      if ((size_t)f.gcount() != len) return false;
+      f.get();  // the newline after the blob
+      if (kk == k) return true;
+      if (kk > k) return false;
+    }
+    return false;
+  }
+
+  ~ParallelBlobs() {
+    files.clear();
+    for (int w = 0; w < W; ++w) remove((prefix + std::to_string(w) + ".bin").c_str());
+  }
+};
 
 // cells that detailed placement must leave alone: movable cells whose placed height is not the row height
 inline bool isMultiRow(const Circuit &c, int i, int rowHeight) { return !c.isFixed(i) && c.placedHeight(i) != rowHeight; }
